@@ -1,1 +1,72 @@
-// Kani harnesses (cfg(kani) only); pulled in by a #[path] hook in /repo.
+// Kani harnesses for rustemo::lexer (cfg(kani) only; child module, so StringLexer::skip and TokenIterator are in reach).
+use super::*;
+use crate::lr::context::LRContext;
+use crate::position::LineColumn;
+
+#[derive(Debug, Default, Clone, Copy, PartialEq, Eq)]
+struct St(u8);
+impl State for St {
+    fn default_layout() -> Option<Self> {
+        None
+    }
+}
+struct Rec;
+impl<'i> TokenRecognizer<'i> for Rec {}
+type Ctx<'i> = LRContext<'i, str, St, u8>;
+
+/// log!() consults RUSTEMO_TRACE through std::env::var_os in debug builds (a foreign call): stubbed, tracing off.
+fn stub_var_os<K: AsRef<std::ffi::OsStr>>(_key: K) -> Option<std::ffi::OsString> {
+    None
+}
+
+/// C14/C15: StringLexer::skip skips exactly the maximal whitespace prefix at the current position, stores it as the
+/// layout (None if empty), advances the position by its BYTE length, and never slices inside a character.
+/// bounded(N bytes of arbitrary valid UTF-8, so multi-byte whitespace such as U+00A0 / U+2003 is included; start at any
+/// char boundary).
+fn skip_harness<const N: usize>() {
+    let buf: [u8; N] = kani::any();
+    let len: usize = kani::any();
+    kani::assume(len <= N);
+    let s = std::str::from_utf8(&buf[..len]);
+    kani::assume(s.is_ok());
+    let s = s.unwrap();
+    let start: usize = kani::any();
+    kani::assume(start <= len && s.is_char_boundary(start));
+    let line: usize = kani::any();
+    let column: usize = kani::any();
+    kani::assume(line < usize::MAX - N && column < usize::MAX - N);
+    let mut ctx: Ctx = LRContext::new(Position { pos: start, line_col: Some(LineColumn { line, column }) });
+    // stale layout from an earlier token must not survive
+    if kani::any() { ctx.set_layout_ahead(Some(&s[0..0])); }
+
+    StringLexer::<Ctx, St, u8, Rec, 1>::skip(s, &mut ctx);
+
+    // independent oracle: byte length of the maximal whitespace prefix of s[start..]
+    let mut ws = 0usize;
+    let mut done = false;
+    for c in s[start..].chars() {
+        if !done && c.is_whitespace() { ws += c.len_utf8(); } else { done = true; }
+    }
+    assert!(ctx.position().pos == start + ws, "C14: position not advanced by the byte length of the skipped layout");
+    match ctx.layout_ahead() {
+        Some(l) => {
+            assert!(ws > 0 && l.len() == ws, "C14: stored layout is not the skipped whitespace");
+            assert!(l.as_ptr() == s[start..].as_ptr());
+        }
+        None => assert!(ws == 0, "C14: whitespace was skipped but no layout stored"),
+    }
+    kani::cover!(ws == 3, "three bytes of whitespace (e.g. U+2003, or NBSP + space)");
+    kani::cover!(ws == 2 && len == N, "two bytes of whitespace followed by something");
+}
+#[kani::proof]
+#[kani::unwind(10)]
+#[kani::stub(std::env::var_os, stub_var_os)]
+fn lexer_skip_4() {
+    skip_harness::<4>()
+}
+#[kani::proof]
+#[kani::unwind(12)]
+#[kani::stub(std::env::var_os, stub_var_os)]
+fn lexer_skip_5() {
+    skip_harness::<5>()
+}
